@@ -696,6 +696,40 @@ def non_utf8_streams():
 
 
 
+def impl_run_drained(segs, lim):
+    """A request parser with a bounded message queue whose consumer keeps up (what RequestHandler.start does): after
+    every read each emitted message is consumed (message_consumed()) and the parked remainder is re-fed with
+    feed_data(b"") until nothing more comes out.  Returns the list of (method, target, version, body hex) and the outcome."""
+    from aiohttp.http_parser import HttpRequestParser
+    from aiohttp.streams import EMPTY_PAYLOAD
+    ml, mf, mh, mq = lim
+    proto = mock.Mock()
+    proto._reading_paused = False
+    p = HttpRequestParser(proto, loop(), 2 ** 22, max_line_size=ml, max_field_size=mf, max_headers=mh,
+                          auto_decompress=False, max_msg_queue_size=mq)
+    got, outcome = [], "OK"
+    try:
+        for i, seg in enumerate(list(segs) + [b""]):
+            data = bytes(seg)
+            for _ in range(10000):
+                msgs, upgraded, tail = p.feed_data(data)
+                got.extend(msgs)
+                for _m in msgs:
+                    p.message_consumed()
+                data = b""
+                if not msgs:
+                    break
+    except Exception as e:  # noqa
+        nm = type(e).__name__
+        outcome = ("ERR:" if nm in ERR_CLASSES else "ESCAPE:") + nm
+    out = []
+    for m, payload in got:
+        body = payload is not EMPTY_PAYLOAD
+        data = b"".join(bytes(x) for x in getattr(payload, "_buffer", ())) if body else b""
+        out.append((m.method, m.path.encode("utf-8", "surrogateescape").hex(), f"{m.version.major}.{m.version.minor}", data.hex()))
+    return {"outcome": outcome, "msgs": out}
+
+
 def impl_run_consumed(segs, lim):
     """Like impl_run, but every delivered payload is read CONCURRENTLY by a consumer task doing what
     BaseRequest.read() does (await readany() until it returns b""), scheduled between the reads.
